@@ -707,7 +707,7 @@ func (x *seqRun) markSqueezed(r int, pushOverLimit bool) {
 	}
 	t := x.w.e.VerifQueue().VerifTracker(x.w.ids[r])
 	for c, le := range l {
-		need := x.w.store[c] && c != cZ                                  // a task that knows the block is there ...
+		need := x.w.store[c] && c != cZ                                         // a task that knows the block is there ...
 		needWB := need && (!le.have || (x.cfg.R > 0 && poolSize[c] <= x.cfg.R)) // ... and that it has to go out as a block
 		ok := func(d peertask.Data) bool {
 			wb, _, hb, _ := decision.VerifTaskData(d)
